@@ -828,6 +828,10 @@ pub(crate) fn validate_headers(image: &[u8]) -> Result<u32> {
 	if size_of_sections + start_of_sections > image.len() {
 		return Err(Error::Bounds);
 	}
+	// The section headers are accessed as dword aligned structures
+	if !start_of_sections.aligned_to(4) {
+		return Err(Error::Misaligned);
+	}
 	Ok(nt.OptionalHeader.SizeOfImage)
 }
 
